@@ -6,7 +6,7 @@ import os
 
 ROOT = os.path.dirname(os.path.abspath(__file__))
 
-HOOK_COMMITS = ["fd7931a"]
+HOOK_COMMITS = ["fd7931a", "af3bf8c"]
 FIX_COMMITS = ["908afde", "7500af7", "0c458dd", "083bfe9", "1cdef64", "d4e0d22"]
 
 ALL = [f"C{i:02d}" for i in range(1, 21)]
@@ -20,7 +20,7 @@ CHECKS = {
             "DESIGN.md section 4, C09"),
     "C20": ("translation_validation",
             "template re-instantiation + structural AST comparison (source), typed-vs-untyped differential execution of generated scenarios against a shared reference model (behaviour), request-path differential against the API conventions over loopback HTTP (clients)",
-            "The generated typed packages and joins are treated as outputs of a translation (template + type -> source): the harness re-executes every instantiation listed in the Makefile and compares ASTs declaration by declaration; behaviourally the same generated scenarios run through each typed package and through the untyped core and must agree with each other and with the reference model, with foreign-typed objects skipped rather than crashing; each typed client's List/Watch requests are compared with the API-conventions table and its list response must decode to the right type.",
+            "The generated typed packages and joins are treated as outputs of a translation (template + type -> source): the harness re-executes every instantiation listed in the Makefile and compares ASTs declaration by declaration; behaviourally the same generated scenarios run through each typed package and through the untyped core and must agree with each other and with the reference model, with foreign-typed objects skipped rather than crashing; each typed client's List/Watch requests are compared with the API-conventions table and its list response must decode to the right type; the typed subscription wrapper is additionally checked in isolation over a harness-owned parent subscription (hook pod.VerifNewSubscription): exactly the parent's events of the type, in order, also when the parent is already done with a backlog.",
             "Instantiation is re-implemented in the harness (identifier substitution / text/template execution), goimports' import block is ignored; behaviour is sampled (rapid), source and the 12x2 request table are complete.",
             "DESIGN.md section 4, C20"),
     "C03": ("fault_enumeration",
